@@ -80,16 +80,20 @@ def gen_ff(g, nblocks=None, uniform_nrexcl=True, itp_p=0.2, multires_p=0.15):
             b["nrexcl"] = blocks[0]["nrexcl"]
     names = [b["name"] for b in blocks]
     links = []
+    all_itp = itp_p > 0 and len(blocks) >= 2 and g.random() < 0.12
     for X in blocks:
         # polyply .itp input syntax: monomer file whose interactions may point into the next residue
         # (atom index > number of atoms); stands for the X-X next-residue link
-        X["itp"] = itp_p > 0 and g.random() < itp_p
+        X["itp"] = itp_p > 0 and (g.random() < itp_p or all_itp)
         if X["itp"]:
             n = len(X["atoms"])
             X["dangling"] = {"bonds": [{"atoms": [n - 1, n], "params": ["1", str(round(g.uniform(0.3, 0.5), 3)), "4500"],
                                         "meta": {}}]}
             if n >= 2 and g.random() < 0.5:
                 X["dangling"]["angles"] = [{"atoms": [n - 2, n - 1, n], "params": ["1", "125", "35"], "meta": {}}]
+                if g.random() < 0.4:
+                    # a second term over the same atoms across the junction (multi-term interaction)
+                    X["dangling"]["angles"].append({"atoms": [n - 2, n - 1, n], "params": ["2", "135.00", "50.0"], "meta": {}})
     for X in blocks:
         for Y in blocks:
             if X is Y and X.get("itp"):
@@ -159,8 +163,12 @@ def gen_ff(g, nblocks=None, uniform_nrexcl=True, itp_p=0.2, multires_p=0.15):
         if g.random() < 0.3:
             # three-residue link along a chain of equal residues
             a = X["atoms"][0]["name"]
-            links.append({"resnames": names, "sections": {
-                "angles": [{"atoms": [a, ">" + a, ">>" + a], "params": ["1", "140", "20"], "meta": {}}]}})
+            sec3 = {"angles": [{"atoms": [a, ">" + a, ">>" + a], "params": ["1", "140", "20"], "meta": {}}]}
+            if g.random() < 0.5:
+                # GROMOS style 1-4 pair between the first and the THIRD residue of the link (residues that are not
+                # neighbours in the residue graph)
+                sec3["pairs"] = [{"atoms": [a, ">>" + a], "params": ["1", "0.29", "1.5"], "meta": {}}]
+            links.append({"resnames": names, "sections": sec3})
     multires = None
     if g.random() < multires_p:
         # an existing multi-residue molecule used as building block (polyply .itp file; residue graph nodes of the
@@ -178,7 +186,10 @@ def gen_ff(g, nblocks=None, uniform_nrexcl=True, itp_p=0.2, multires_p=0.15):
     # .itp blocks live in files of their own (other parser)
     itp_items = [it for f in files for it in f if it[0] == "block" and blocks[it[1]].get("itp")]
     files = [[it for it in f if it not in itp_items] for f in files]
-    files = [f for f in files if f] + [[it] for it in itp_items]
+    if len(itp_items) >= 2 and g.random() < 0.6:
+        files = [f for f in files if f] + [itp_items]       # several moleculetypes with dangling indices in ONE .itp file
+    else:
+        files = [f for f in files if f] + [[it] for it in itp_items]
     if multires:
         files.append([["multires", 0]])
     return {"atypes": atypes, "blocks": blocks, "links": links, "files": files, "multires": multires,
@@ -273,8 +284,7 @@ def render_files(ff, file_order=None, item_orders=None):
         items = files[fi]
         if item_orders and item_orders.get(str(fi)):
             items = [items[k] for k in item_orders[str(fi)]]
-        is_itp = len(items) == 1 and ((items[0][0] == "block" and ff["blocks"][items[0][1]].get("itp"))
-                                      or items[0][0] == "multires")
+        is_itp = all((it[0] == "block" and ff["blocks"][it[1]].get("itp")) or it[0] == "multires" for it in items)
         ext = "itp" if is_itp else "ff"
         fname = f"d{fi}/defs.{ext}" if ff.get("same_names") else f"ff{fi}.{ext}"
         out.append((fname, "\n".join(render_item(ff, it) for it in items)))
